@@ -14,6 +14,7 @@ import (
 func init() {
 	extras["queue-stress"] = queueStress
 	extras["pipe-stress"] = pipeStress
+	extras["queue-programs"] = queuePrograms
 }
 
 // pipe-stress: free-running Fork / Split / Join pipelines.
@@ -70,4 +71,41 @@ func queueStress(args []string) {
 	w.Flush()
 	f.Close()
 	fmt.Printf("DONE runs=%d notdone=%d\n", *n, notDone)
+}
+
+// queue-programs: the model-checked client programs, free-running, n times each.
+func queuePrograms(args []string) {
+	var fs = flag.NewFlagSet("queue-programs", flag.ExitOnError)
+	var progs = fs.String("progs", "", "programs (JSON array)")
+	var out = fs.String("out", "", "result file (ndjson)")
+	var n = fs.Int("n", 20, "runs per program")
+	var seed = fs.Int64("seed", 1, "seed")
+	var deadline = fs.Duration("deadline", 250*time.Millisecond, "no-progress interval")
+	fs.Parse(args)
+	var data, err = os.ReadFile(*progs)
+	var list []qstress.Program
+	if err != nil || json.Unmarshal(data, &list) != nil {
+		fmt.Fprintln(os.Stderr, "cannot read programs")
+		os.Exit(2)
+	}
+	var f, _ = os.Create(*out)
+	var w = bufio.NewWriter(f)
+	var total, notDone = 0, 0
+	for pi, prog := range list {
+		var stuck = 0
+		for i := 0; i < *n && stuck < 3; i++ {
+			var r = qstress.RunProgram(pi*10000+i, prog, *seed*6151+int64(pi*1000+i), *deadline)
+			if !r.Done {
+				stuck++
+				notDone++
+			}
+			total++
+			var b, _ = json.Marshal(map[string]any{"prog": prog.Name, "run": r})
+			w.Write(b)
+			w.WriteByte('\n')
+		}
+	}
+	w.Flush()
+	f.Close()
+	fmt.Printf("DONE runs=%d notdone=%d\n", total, notDone)
 }
